@@ -12,7 +12,7 @@ use vcore::pool::{self, DriveOpts, WorkerCtx};
 use vcore::rng::Rng;
 
 const KINDS: &[&str] = &[
-  "random-bytes", "utf8-soup", "token-soup", "structured-soup", "truncation", "token-mutation", "range-mutation", "ladder", "multi-module", "std-mutation", "heavy-mutation", "comment-string-edges",
+  "random-bytes", "utf8-soup", "token-soup", "structured-soup", "truncation", "token-mutation", "range-mutation", "ladder", "multi-module", "std-mutation", "heavy-mutation", "comment-string-edges", "malformed-patterns",
 ];
 
 fn total_cases(tier: &str) -> u64 {
@@ -51,6 +51,26 @@ fn gen_case(seed: u64, i: u64, corpus: &Corpus) -> (String, String, Vec<(String,
     "token-soup" => (kind.into(), String::new(), single(mutate::token_soup(&mut rng, 120)), true),
     "structured-soup" => (kind.into(), String::new(), single(mutate::structured_soup(&mut rng, 60)), true),
     "comment-string-edges" => (kind.into(), String::new(), single(edge_soup(&mut rng)), true),
+    "malformed-patterns" => {
+      // a module full of binding constructs with one to three ill-formed patterns (arity, duplicate
+      // or unknown fields, sub-patterns on payload-free variants), sometimes mutated further
+      let base = vcore::exprgen::binder_zoo(&mut rng);
+      let mut text = base.clone();
+      let mut ops = Vec::new();
+      for _ in 0..1 + rng.below(3) {
+        let faults = vcore::exprgen::pattern_faults(&text, &mut rng);
+        if faults.is_empty() {
+          break;
+        }
+        let (op, t) = faults[rng.below(faults.len())].clone();
+        ops.push(op);
+        text = t;
+      }
+      if rng.chance(1, 3) {
+        text = mutate::token_mutation(&text, &mut rng, 1).0;
+      }
+      (kind.into(), ops.join("+"), single(text), true)
+    }
     "truncation" => {
       let (n, t) = pick_file(&mut rng);
       (kind.into(), format!("{n}"), vec![(n, mutate::truncate_at(&t, &mut rng))], true)
@@ -400,6 +420,7 @@ fn main() {
   }
   // worker deaths: abort / stack overflow / hang, attributed to the announced case
   let mut deep_observations: Vec<String> = Vec::new();
+  let mut hangs_seen = 0u32;
   for d in &res.deaths {
     let Some(case) = d.case else {
       run.harness_errors.push(format!("worker shard {} died outside any case: {} {}", d.shard, d.how, d.stderr_tail.lines().last().unwrap_or("")));
@@ -409,8 +430,14 @@ fn main() {
     let mods = with_std(mods, &corpus);
     let overflow = d.stderr_tail.contains("overflowed its stack") || d.how.contains("signal 11") || d.how.contains("signal 6") && d.stderr_tail.contains("stack");
     if d.hang {
-      // re-run alone with a 100x larger budget before calling it a hang
-      let (_, again) = pool::run_single(&opts, d.shard, case, Duration::from_secs(if thorough { 1800 } else { 600 }));
+      // re-run alone with a 100x larger budget before calling it a hang (the first few only: a tree
+      // that hangs on one input usually hangs on many, and each confirmation costs minutes)
+      hangs_seen += 1;
+      if hangs_seen > 3 {
+        run.inconclusive("further stalled inputs were not re-run alone (three stalls already examined in this run)");
+        continue;
+      }
+      let (_, again) = pool::run_single(&opts, d.shard, case, Duration::from_secs(if thorough { 900 } else { 240 }));
       match again {
         Some(a) if a.hang => run.violation(format!("hang:{kind}"), format!("no result after {} alone: {kind} {desc}", a.how), render_modules(&mods)),
         Some(a) if !in_bounds && (a.stderr_tail.contains("overflowed its stack") || a.how.contains("signal 11") || a.how.contains("signal 6") && a.stderr_tail.contains("stack")) => {
